@@ -215,6 +215,8 @@ where
         write_set: &mut HashSet<LocationAndType>,
     ) {
         #[cfg(feature = "verif-hooks")]
+        crate::verif::rt::obs4("mv_publish_val", self.version.txid, crate::verif::loc_hash(&location), crate::verif::memory_value_hash(&value), 0);
+        #[cfg(feature = "verif-hooks")]
         crate::verif::rt::pt4("mv_publish", self.version.txid, crate::verif::loc_hash(&location), self.version.incarnation, estimate as usize);
         write_set.insert(location.clone());
         self.mv_memory
@@ -251,6 +253,14 @@ where
             result = Some(byte_code);
         }
 
+        #[cfg(feature = "verif-hooks")]
+        crate::verif::rt::obs4(
+            "mv_read_done",
+            self.version.txid,
+            crate::verif::loc_hash(&location),
+            crate::verif::ver_code(&read_version),
+            result.as_ref().map_or(0, |code| crate::verif::rt::fnv(code.hash_slow().as_slice())),
+        );
         self.read_set.insert(location, read_version);
         Ok(result.expect("No bytecode"))
     }
@@ -311,6 +321,14 @@ where
             if let Some(read_account) = read_account {
                 self.account_snapshots.insert(address, read_account);
             }
+            #[cfg(feature = "verif-hooks")]
+            crate::verif::rt::obs4(
+                "mv_read_done",
+                self.version.txid,
+                crate::verif::loc_hash(&location),
+                crate::verif::ver_code(&read_version),
+                crate::verif::account_hash(result.as_ref()),
+            );
             self.read_set.insert(location, read_version);
         }
 
@@ -343,6 +361,14 @@ where
             }
             reset_version = ReadVersion::MvMemory(TxVersion::new(txid, entry.incarnation));
         }
+        #[cfg(feature = "verif-hooks")]
+        crate::verif::rt::obs4(
+            "mv_read_done",
+            self.version.txid,
+            crate::verif::loc_hash(&reset_location),
+            crate::verif::ver_code(&reset_version),
+            reset_txid.is_some() as usize,
+        );
         self.read_set.insert(reset_location, reset_version);
 
         let location = LocationAndType::Storage(address, index);
@@ -360,16 +386,29 @@ where
             slot_version = ReadVersion::MvMemory(TxVersion::new(txid, entry.incarnation));
             slot_write = Some((txid, value));
         }
+        #[cfg(feature = "verif-hooks")]
+        let verif_slot = (crate::verif::loc_hash(&location), crate::verif::ver_code(&slot_version));
         self.read_set.insert(location, slot_version);
 
         if let Some((slot_txid, value)) = slot_write &&
             reset_txid.is_none_or(|reset_txid| slot_txid >= reset_txid)
         {
+            #[cfg(feature = "verif-hooks")]
+            crate::verif::rt::obs4("mv_read_done", self.version.txid, verif_slot.0, verif_slot.1, crate::verif::u256_hash(&value));
             return Ok(value);
         }
         if reset_txid.is_some() {
+            #[cfg(feature = "verif-hooks")]
+            crate::verif::rt::obs4("mv_read_done", self.version.txid, verif_slot.0, verif_slot.1, crate::verif::u256_hash(&U256::ZERO));
             return Ok(U256::ZERO);
         }
+        #[cfg(feature = "verif-hooks")]
+        {
+            let value = self.backing_db.storage_ref(address, index)?;
+            crate::verif::rt::obs4("mv_read_done", self.version.txid, verif_slot.0, verif_slot.1, crate::verif::u256_hash(&value));
+            return Ok(value);
+        }
+        #[cfg(not(feature = "verif-hooks"))]
         self.backing_db.storage_ref(address, index)
     }
 
